@@ -67,6 +67,32 @@ def main():
     if not ok:
         json.dump(out, open(os.path.join(src, "eval.json"), "w"), indent=1)
         return 1
+    if "--scratch" in args:
+        # run the checks against a scratch copy of the patched package (VERIF_REPO) instead of patching /repo:
+        # used while other background jobs read /repo
+        tmp = tempfile.mkdtemp(prefix="pavseed_", dir="/var/tmp")
+        results = {}
+        try:
+            shutil.copytree("/repo/pyairtouch", os.path.join(tmp, "pyairtouch"))
+            ra = sh(f"patch -p1 -s -d {tmp} -i {patch}")
+            if ra.returncode:
+                print("apply to scratch failed", ra.stdout, ra.stderr)
+                return 2
+            for c in checks:
+                r = sh(f"cd /verif && VERIF_REPO={tmp} ./check {c} --tier {tier} --no-evidence", timeout=3000)
+                lines = [l for l in r.stdout.splitlines() if l.startswith(("VIOLATION", "[", "HARNESS", "  what"))]
+                results[c] = {"exit": r.returncode, "lines": [l[:500] for l in lines[:6]]}
+                print(f"--- check {c}: exit={r.returncode}")
+                for l in lines[:4]:
+                    print("   ", l[:300])
+        finally:
+            shutil.rmtree(tmp, ignore_errors=True)
+        out["checks"] = results
+        out["how"] = "scratch copy (VERIF_REPO)"
+        out["caught_by"] = [c for c, r in results.items() if r["exit"] == 1]
+        json.dump(out, open(os.path.join(src, "eval.json"), "w"), indent=1)
+        print("caught_by:", out["caught_by"])
+        return 0
     # ---- run the checks against /repo with the patch applied
     st = sh("git -C /repo status --porcelain")
     if st.stdout.strip():
